@@ -211,6 +211,7 @@ def load_program(config="default", only=None, extra_sources=None, root=None):
     stats["extract_s"] += time.time() - t0
     prog = Program(units)
     prog.config = config
+    prog.root = root or REPO
     if not extra_sources:
         _programs[key] = prog
     return prog
